@@ -238,6 +238,8 @@ static void Tuple_Rem(var self, var item) {
     }
     i++;
   }
+  
+  throw(ValueError, "Object %$ not in Tuple!", item);
 }
 
 static int Tuple_Show(var self, var output, int pos) {
